@@ -8,6 +8,7 @@ pub mod c05;
 pub mod c07;
 pub mod c09;
 pub mod c10;
+pub mod c11;
 pub mod c12;
 pub mod c15;
 
@@ -24,6 +25,7 @@ pub fn plan_for(id: &str) -> Option<Plan> {
         "C07" => c07::plan(),
         "C09" => c09::plan(),
         "C10" => c10::plan(),
+        "C11" => c11::plan(),
         "C12" => c12::plan(),
         "C15" => c15::plan(),
         _ => return None,
@@ -40,6 +42,7 @@ pub fn shard_for(id: &str, ctx: &Ctx) -> Option<Shard> {
         "C07" => c07::shard(ctx),
         "C09" => c09::shard(ctx),
         "C10" => c10::shard(ctx),
+        "C11" => c11::shard(ctx),
         "C12" => c12::shard(ctx),
         "C15" => c15::shard(ctx),
         _ => return None,
